@@ -4,6 +4,7 @@ See the header of `Lemmas/ChainInv.lean` for the hypotheses and the shape of the
 -/
 import Kodama.Lemmas.ChainInv
 import Kodama.Lemmas.AverageClamp
+import Kodama.Lemmas.WardClamp
 namespace Kodama
 open Spec
 variable {α : Type} [Num α]
@@ -89,6 +90,52 @@ theorem chainReducible_average (L : OrderLaws α) (hn : AverageNoNaN α) :
     simp only [chainUpdFn, updFn, pure, Except.pure, Except.ok.injEq] at h
     subst h
     exact Gen.average_not_lt L sa sb na nb h1 h2
+  nan := hn
+
+/-- Exactly the `nan` clause of `ChainReducible α .ward`, as a named hypothesis: on non-NaN arguments
+with `dab ≤ va`, `dab ≤ vb` (positive sizes) the Ward update yields no NaN.  It is a statement about
+`+ − × /` of the number type only (no overflow to `∞ − ∞`, no `0/0`): guard and clamp never create a
+NaN (`wardNoNaN_of_value`). -/
+def WardNoNaN (α : Type) [Num α] : Prop :=
+  ∀ (sizes : Array Nat) (sa sb : Nat) (dab : α) (x : Nat) (va vb v : α),
+    0 < sa → 0 < sb → Num.isNaN dab = false → Num.isNaN va = false → Num.isNaN vb = false →
+    Num.lt va dab = false → Num.lt vb dab = false →
+    chainUpdFn .ward sizes sa sb dab x va vb = .ok v → Num.isNaN v = false
+
+/-- `chainUpdFn .ward` returns `Gen.ward` at the recorded size of `x`. -/
+theorem chainUpdFn_ward_ok {sizes : Array Nat} {sa sb : Nat} {dab : α} {x : Nat} {va vb v : α}
+    (h : chainUpdFn .ward sizes sa sb dab x va vb = .ok v) :
+    ∃ sx, aget sizes x = .ok sx ∧ v = Gen.ward va vb dab sa sb sx := by
+  cases hx : aget sizes x with
+  | error e => simp [chainUpdFn, updFn, hx, bind, Except.bind] at h
+  | ok sx =>
+    simp only [chainUpdFn, updFn, hx, bind, Except.bind, pure, Except.pure, Except.ok.injEq] at h
+    exact ⟨sx, rfl, h.symm⟩
+
+/-- Sufficient for `WardNoNaN`: the quotient `((sx+sa)·a + (sx+sb)·b − sx·c)/(sa+sb+sx)` of non-NaN
+values with `c ≤ a`, `c ≤ b` and positive `sa`, `sb` is not NaN. -/
+theorem wardNoNaN_of_value
+    (h : ∀ (a b c : α) (sa sb sx : Nat), 0 < sa → 0 < sb → Num.isNaN a = false →
+      Num.isNaN b = false → Num.isNaN c = false → Num.lt a c = false → Num.lt b c = false →
+      Num.isNaN (Gen.wardValue a b c sa sb sx) = false) : WardNoNaN α := by
+  intro sizes sa sb dab x va vb v hsa hsb nc na nb h1 h2 hv
+  obtain ⟨sx, -, rfl⟩ := chainUpdFn_ward_ok hv
+  exact Gen.ward_isNaN_of_value na nb (h va vb dab sa sb sx hsa hsb na nb nc h1 h2)
+
+/-- **The guarded, clamped Ward update is reducible in every ordered number type.**  `ge` needs
+`OrderLaws` only: from `dab ≤ t ≤ va, vb` the guard `¬ least < dab` of the repaired `method::ward` is
+TRUE, so the update returns `least ∈ {va, vb}`, or a quotient that is not below `least`
+(`Gen.ward_not_lt`); no field law, no exact arithmetic, no assumption on rounding.  `nan` is the
+hypothesis `WardNoNaN`.  This is the formal counterpart of the SECOND `fix:` commit of the crate: for
+the UNCLAMPED formula `ChainReducible α .ward` was false of IEEE floats (rounded quotient below both
+arguments although `dab ≤ min`; 1 906 violations in 4.1 million sampled updates; failing run of the
+real crate: n = 32, f64, last step `(61, 61, size 60)`). -/
+theorem chainReducible_ward (L : OrderLaws α) (hn : WardNoNaN α) :
+    ChainReducible α .ward where
+  ge := by
+    intro sizes sa sb dab x va vb v t _ _ _ na nb nt h0 h1 h2 h
+    obtain ⟨sx, -, rfl⟩ := chainUpdFn_ward_ok h
+    exact Gen.ward_not_lt L sa sb sx na nb nt h0 h1 h2
   nan := hn
 
 theorem chainUpdFn_ok (m : MethodChain) (sizes : Array Nat) (sa sb : Nat) (dab : α) (x : Nat)
